@@ -72,6 +72,8 @@ def jobs(tier):
 
 
 def build(kind, nf, nt):
+  from symex import vtime
+  vtime.setup()
   install_models()
   cls = tmux_mod.SocketTransportSink if kind == 'tmux' else kafka_mod.KafkaTransportSink
   sock = Sock()
@@ -194,31 +196,36 @@ def make_body(job):
         check('reply.reserved-never-free', sand(snot(x == 0), snot(x == 1)))
       check('reply.high-water-unchanged', n2 == nxt)
     elif op in ('timeout-unsent', 'timeout-sent'):
+      # through the real send loop: the request is queued, the loop writes it (or skips it because its
+      # time-out already struck), then the time-out strikes
+      import gevent
       st, term, msg = terms[0]
       evt = Observable(); msg.properties[Deadline.EVENT_KEY] = evt
+      buf = SymBytesIO(); buf.write(b'\x01\x02')
+      hdr = s._BuildHeader(T[0], MessageType.Tdispatch if kind == 'tmux' else 0, 2)
+      s._send_queue.put((SymBytes.of(hdr) + b'\x01\x02', msg.properties))
       if op == 'timeout-unsent':
         cover('timeout-unsent')
         evt._value = True       # timed out while still in the send queue
-        skip = s._HandleTimeout(msg.properties)
-        check('timeout-unsent.skipped', skip is True)
+      loop = gevent.spawn(s._SendLoop)
+      for _ in range(4): gevent.sleep(0)
+      if op == 'timeout-unsent':
+        check('timeout-unsent.never-written', len(sock.written) == 0)
         F2, T2, n2 = inv_after(s)
         check('timeout-unsent.released', len(T2) == nt - 1 and len(F2) == nf + 1)
         check('timeout-unsent.tag-free', bool(in_list(T[0], F2)))
       else:
         cover('timeout-sent')
-        skip = s._HandleTimeout(msg.properties)
-        check('timeout-sent.sent', skip is False)
-        # the timeout fires after transmission: the real one-shot subscription runs
-        cbs = list(evt._one_shot_callbacks or [])
-        check('timeout-sent.subscribed', len(cbs) == 1)
-        for cb in cbs: cb(True)
+        check('timeout-sent.written', len(sock.written) == 1)
+        evt.Set(True)             # the time-out strikes after transmission
+        for _ in range(6): gevent.sleep(0)
         F2, T2, n2 = inv_after(s)
         check('timeout-sent.tag-stays-unanswered', len(T2) == nt and len(F2) == nf and bool(in_list(T[0], T2)))
-        check('timeout-sent.discard-queued', s._send_queue.qsize() == 1)
-        if s._send_queue.qsize() == 1:
-          payload, props = s._send_queue.get()
-          b = SymBytes.of(payload)
+        check('timeout-sent.discard-written', len(sock.written) == 2)
+        if len(sock.written) == 2:
+          b = SymBytes.of(sock.written[1])
           check('timeout-sent.discard-type', b[4] == MessageType.Tdiscarded)
-          check('timeout-sent.discard-own-tag-0', header_tag(kind, payload) == 0)
+          check('timeout-sent.discard-own-tag-0', header_tag(kind, sock.written[1]) == 0)
           check('timeout-sent.discard-names-tag', b[8] * 65536 + b[9] * 256 + b[10] == T[0])
+      loop.kill(block=False)
   return body
